@@ -1,6 +1,10 @@
 ------------------------------ MODULE Gen_C01 ------------------------------
 EXTENDS EnvGen
 C01Cfgs == { [nsrv |-> 1, tries |-> 2, timeout |-> 1000, seed |-> 1],
-             [nsrv |-> 1, tries |-> 1, timeout |-> 1000, seed |-> 3, edns |-> 1],
+             [nsrv |-> 1, tries |-> 1, timeout |-> 1000, seed |-> 3, edns |-> 1, domains |-> <<"d1.test">>, ndots |-> 3],
              [nsrv |-> 2, tries |-> 1, timeout |-> 1000, seed |-> 2, domains |-> <<"d1.test">>, ndots |-> 3] }
+(* deep single-request paths: retransmissions, late answers to earlier transmissions, further deadlines *)
+C01DeepCfgs == { [nsrv |-> 2, tries |-> 2, timeout |-> 500, seed |-> 5],
+                 [nsrv |-> 2, tries |-> 2, timeout |-> 500, seed |-> 6, udpmax |-> 1],
+                 [nsrv |-> 1, tries |-> 3, timeout |-> 500, seed |-> 7, stayopen |-> 1] }
 =============================================================================
